@@ -70,6 +70,7 @@ package keeper
 // GetBondedValidators walks the staking module's power index (a raw store iterator, not modelled): trusted read.
 //@ func (k Keeper).GetBondedValidators(ctx, max) (vals, err)
 //@ trusted
+//@ ensures [returned_validators_are_stored_records] err == nil ==> forall j in [0, len(vals)) :: exists v bytes :: has(staking.validators, v) && vals[j] == staking.validators[v]
 
 //@ func (k Keeper).ReturnSlashedTokens(ctx, amt, hashId) (err)
 //@ requires [record_well_formed] has(reporter.DisputedDelegationAmounts, bytes(hashId)) ==> drec(hashId).Total > 0 && forall j in [0, len(drec(hashId).TokenOrigins)) :: drec(hashId).TokenOrigins[j] != nil
